@@ -13,6 +13,7 @@
 #include <rime/config/config_cow_ref.h>
 #include <rime/config/config_data.h>
 #include <rime/config/config_types.h>
+#include <rime/verif_deploy_hooks.h>
 
 namespace rime {
 
@@ -53,6 +54,7 @@ bool ConfigData::SaveToStream(std::ostream& stream) {
   try {
     YAML::Emitter emitter(stream);
     EmitYaml(root, &emitter, 0);
+    RIME_VERIF_CRASHPOINT("ConfigData::SaveToStream:emitted-unflushed");
   } catch (YAML::Exception& e) {
     LOG(ERROR) << "Error emitting YAML: " << e.what();
     return false;
@@ -96,6 +98,7 @@ bool ConfigData::SaveToFile(const path& file_path) {
   temp_path += ".tmp";
   {
     std::ofstream out(temp_path.c_str());
+    RIME_VERIF_CRASHPOINT("ConfigData::SaveToFile:opened");
     if (!SaveToStream(out)) {
       return false;
     }
@@ -105,8 +108,10 @@ bool ConfigData::SaveToFile(const path& file_path) {
       return false;
     }
   }
+  RIME_VERIF_CRASHPOINT("ConfigData::SaveToFile:written");
   std::error_code ec;
   std::filesystem::rename(temp_path, file_path, ec);
+  RIME_VERIF_CRASHPOINT("ConfigData::SaveToFile:renamed");
   if (ec) {
     LOG(ERROR) << "failed to save config file '" << file_path
                << "': " << ec.message();
